@@ -72,6 +72,11 @@ def run(chk: Check):
     chk.tv("Trace_LieselBuild.tla", cyc, tag="cyclic_universe",
            cfg_extra=TV_CFG.replace("UIn <- UIn1", "UIn <- UInCycT").replace("Seeded = {4}", "Seeded = {}"),
            keyfn=lambda r: f"build:cyclic:{r.conjunct}")
+    # ... with a seeded node on the cycle, and while the caller still holds the exception of the rejected build
+    cyc = [B.cyclic_trace(c, seeded=True, hold=h) for c in (False, True) for h in (False, True)]
+    chk.tv("Trace_LieselBuild.tla", cyc, tag="cyclic_universe_seeded",
+           cfg_extra=TV_CFG.replace("UIn <- UIn1", "UIn <- UInCycT").replace("Seeded = {4}", "Seeded = {2}"),
+           keyfn=lambda r: f"build:cyclic_seeded:{r.conjunct}")
     chk.tv("Trace_LieselBuild.tla", traces, tag="objects", cfg_extra=TV_CFG, nontrivial=nontrivial,
            keyfn=lambda r: f"build:{r.conjunct}:{r.trace['ev'][r.line - 1]['ev']}:{r.trace['ev'][r.line - 1].get('reason', '')}",
            describe=lambda r: str([(x["ev"], x.get("o"), x.get("m"), x.get("copy"), x.get("how"), x.get("which"),
